@@ -112,6 +112,19 @@ pub fn stages_for(prop: &str, tier: Tier) -> Option<Vec<Stage>> {
     Some(match prop {
         "C13" => vec![st("parser", 1_000_000, 20_000_000)],
         "C14" => vec![st("parser", 1_000_000, 20_000_000)],
+        "C01" => vec![
+            st("parser", 400_000, 8_000_000),
+            st("splits", 600_000, 12_000_000),
+            st("chars", 400_000, 8_000_000),
+            st("slices_u8", 300_000, 6_000_000),
+            st("slices_zst", 150_000, 3_000_000),
+            st("slices_big", 150_000, 3_000_000),
+            st("ranges_char", 150_000, 3_000_000),
+            st("ranges_u8", 100_000, 2_000_000),
+            st("ranges_i128", 50_000, 1_000_000),
+            Stage { world: "byvalue", runs: <crate::worlds::byvalue::ByValueWorld as World>::sweep_len(), sweep: true },
+            st("byvalue", 400_000, 8_000_000),
+        ],
         "C15" | "C11" => {
             let sweep_len = <crate::worlds::byvalue::ByValueWorld as World>::sweep_len();
             vec![Stage { world: "byvalue", runs: sweep_len, sweep: true }, st("byvalue", 600_000, 12_000_000)]
@@ -222,6 +235,19 @@ pub fn prop_info(prop: &str) -> PropInfo {
                 "seeded sampling: a clean batch is evidence, not proof",
             ],
         },
+        "C01" => PropInfo {
+            level: "exploration",
+            rule: "Every world of the simulator (A slices x3 element types, B ranges x3 types, C chars, D splits incl. free-mode mixed next/next_back/rev histories, E parser, F by-value incl. the complete fault sweep) is run (a) natively with the C01 invariants after every step - each non-empty returned &[T]/&str/&[T;N] lies inside the datum it was derived from (address-range check), each &str re-validates with from_utf8 and sits on char boundaries of the datum, each yielded char is a scalar value, no token is dropped twice / no garbage is dropped / no dead slot is handed out - and (b) under Miri (UB detector) on a slice of the same plans plus the complete by-value fault sweep. Cases are drawn by the seeded planner as for the other properties; non-trivial/distinct as defined there (run fingerprints); Miri re-executions are counted in evaluations but add nothing to distinct_nontrivial.",
+            real_vs_stub: json!({
+                "real_code": ["everything listed for C06, C07, C08, C09, C13, C14, C15, C11 (all unsafe blocks behind: slice_from/up_to/split_at/as_chunks, __from_u8_subslice_of_str via str_from/str_up_to/split_at/strip_*/trim_*/find_skip/rfind_skip, string_to_char/from_u32_unchecked, chr::from_u32, encode_utf8().as_str(), uninit_array, array_assume_init, ArrayBuilder/ArrayConsumer, destructure! ptr::read/read_unaligned)"],
+                "reference_models": ["address-range containment, core::str::from_utf8, is_char_boundary, drop ledger", "Miri (nightly) as UB oracle"],
+                "stubs": [],
+            }),
+            assumptions: vec![
+                "SCOPED: decides C01 only for the code the simulated histories execute. NOT decided: the input-space clause for functions no history calls with adversarial arguments (slice::get_*/ *_mut slicing functions with out-of-range indices, try_into_array, as_rchunks, ffi::cstr, ptr, maybe_uninit, manually_drop), and 'under compile-time evaluation' (Miri and CTFE share the interpreter core, but no const item is evaluated by this check)",
+                "Miri runs a sample (hundreds to thousands of plans) because it is ~1e5 x slower than native; the by-value fault sweep runs completely under Miri",
+            ],
+        },
         "C15" | "C11" => PropInfo {
             level: if prop == "C15" { "fault_enumeration" } else { "exploration" },
             rule: RULE_BYVALUE,
@@ -243,9 +269,35 @@ pub fn prop_info(prop: &str) -> PropInfo {
     }
 }
 
-/// Non-batch stages (fault sweep, Miri tier); none yet for the parser world.
-pub fn extra_stages(_prop: &str, _tier: Tier, _seed: u64, _scratch: &Path) -> ExtraResult {
-    ExtraResult { report: json!({}), ..Default::default() }
+/// Non-batch stages: the Miri tier of C01.
+pub fn extra_stages(prop: &str, tier: Tier, seed: u64, _scratch: &Path) -> ExtraResult {
+    if prop != "C01" || std::env::var_os("KSIM_NO_MIRI").is_some() {
+        return ExtraResult { report: json!({}), ..Default::default() };
+    }
+    use crate::miri::Segment;
+    // Miri costs ~1-2 CPU-seconds per plan: quick runs ~450 plans (a third of the sweep cells,
+    // chosen by the seed), thorough the complete sweep and 40x the sampled plans
+    let quick = tier == Tier::Quick;
+    let scale: u64 = if quick { 1 } else { 40 };
+    let scale = std::env::var("KSIM_MIRI_SCALE").ok().and_then(|s| s.parse().ok()).unwrap_or(scale);
+    let seg = |world: &'static str, n: u64| Segment { world, from: 0, to: n * scale, sweep: false, stride: 1, offset: 0 };
+    let sweep_len = <crate::worlds::byvalue::ByValueWorld as World>::sweep_len();
+    let stride = if quick { 3 } else { 1 };
+    let segments = vec![
+        Segment { world: "byvalue", from: 0, to: sweep_len, sweep: true, stride, offset: seed % stride },
+        seg("byvalue", 64),
+        seg("parser", 32),
+        seg("splits", 32),
+        seg("chars", 24),
+        seg("slices_u8", 24),
+        seg("slices_zst", 12),
+        seg("slices_big", 12),
+        seg("ranges_char", 12),
+        seg("ranges_u8", 8),
+        seg("ranges_i128", 4),
+    ];
+    let jobs = std::thread::available_parallelism().map(|n| n.get()).unwrap_or(4);
+    crate::miri::run_miri_tier(prop, seed, segments, jobs)
 }
 
 /// Predicates naming open known findings (see known_findings.json). None are open.
